@@ -14,14 +14,14 @@ pub fn write(ctx: &Ctx, parts: &[(String, Stats)]) {
   for (name, st) in parts {
     evals += st.evals;
     // parts use disjoint key spaces (different sub-checks), so the sum counts distinct cases
-    nontrivial += st.nontrivial.len() as u64;
+    nontrivial += st.nontrivial_total();
     let mut c = Map::new();
     for (k, v) in &st.counters {
       c.insert(k.clone(), json!(v));
     }
     per_part.insert(
       name.clone(),
-      json!({"evaluations": st.evals, "distinct_nontrivial": st.nontrivial.len(), "strata": c}),
+      json!({"evaluations": st.evals, "distinct_nontrivial": st.nontrivial_total(), "strata": c}),
     );
     for (k, v) in &st.excluded {
       let e = excluded.entry(k.clone()).or_insert(json!(0));
